@@ -238,14 +238,18 @@ MAT_LOOPS = {
 }
 MAT_NLOOPS = {'ctor': 2, 'transposition': 2, 'mulm': 3}
 MAT_PREFIX = {}
-MAT_RULES = {}
+# lock-step ghost accumulator for A*B: exact integer partial sum next to the double accumulator of the code
+MAT_RULES = {'mulm': [Rule('double value = 0;', 'double value = 0; g_acc = 0;', count=1),
+                      Rule('value += self->m[z][y] * other->m[x][z];',
+                           'g_acc = g_acc + (int64_t)(self->m[z][y] * other->m[x][z]); value += self->m[z][y] * other->m[x][z];',
+                           count=1)]}
 
 
 TDEF = {
-    'int64_t': ['T=int64_t', 'T_SIGNED=1', 'T_PROMOTES=0', 'T_MIN=INT64_MIN'],
-    'uint64_t': ['T=uint64_t', 'T_SIGNED=0', 'T_PROMOTES=0'],
-    'uint32_t': ['T=uint32_t', 'T_SIGNED=0', 'T_PROMOTES=0'],
-    'uint8_t': ['T=uint8_t', 'T_SIGNED=0', 'T_PROMOTES=1', 'T_IS_8BIT=1'],
+    'int64_t': ['T=int64_t', 'UT=uint64_t', 'T_SIGNED=1', 'T_PROMOTES=0', 'T_MIN=INT64_MIN'],
+    'int32_t': ['T=int32_t', 'UT=uint32_t', 'T_SIGNED=1', 'T_PROMOTES=0', 'T_MIN=INT32_MIN', 'MM_BITS=14'],
+    'uint64_t': ['T=uint64_t', 'UT=uint64_t', 'T_SIGNED=0', 'T_PROMOTES=0'],
+    'uint32_t': ['T=uint32_t', 'UT=uint32_t', 'T_SIGNED=0', 'T_PROMOTES=0'],
 }
 HEAVY = ('muls', 'divs', 'mods', 'imuls', 'idivs', 'imods', 'norm2', 'dot', 'cross')   # 64-bit * / % : cvc5 first
 
@@ -271,16 +275,51 @@ def vec_groups(ctx, table):
                         replay=Replay(driver='C20/vec.cc', mode='%s_order' % cls, extra=[T])))
     # cross product orthogonal to both operands: contracts of cross and dot at an element type without undefined overflow,
     # then the polynomial identity as a lemma over the two contracts
-    for T2 in ('uint8_t', 'uint32_t'):
+    for T2 in ('uint64_t', 'uint32_t'):
         for nm in ('cross', 'dot'):
             g = Group(name='Vector.Vector3<%s>.%s' % (T2, nm), harness=H, entry='h_Vector3_' + nm,
                       function='Vector3<%s>::%s' % (T2, nm), enforce='Vector3_' + nm, defines=TDEF[T2], kind='loop-free',
                       replay=Replay(driver='C20/vec.cc', mode='Vector3_' + nm, extra=[T2]))
             g.first, g.stage1 = 'cvc5', 20
             gs.append(g)
-    gs.append(Group(name='Vector.Vector3<uint8_t>.cross-orthogonal', harness=H, entry='l_cross_orthogonal',
-                    function='Vector3<uint8_t>::cross / dot', replace=['Vector3_cross', 'Vector3_dot'], defines=TDEF['uint8_t'],
-                    kind='lemma', min_post=2, replay=Replay(driver='C20/vec.cc', mode='cross_orthogonal', extra=['uint8_t'])))
+        # only cvc5 normalises the polynomial; the SAT back ends cannot prove the identity even at 4 bits (measured)
+        gs.append(Group(name='Vector.Vector3<%s>.cross-orthogonal' % T2, harness=H, entry='l_cross_orthogonal',
+                        function='Vector3<%s>::cross / dot' % T2, defines=TDEF[T2],
+                        kind='lemma', min_post=2, first='cvc5', stage1=60,
+                        replay=Replay(driver='C20/vec.cc', mode='cross_orthogonal', extra=[T2])))
+    return gs
+
+
+def mat_groups(ctx):
+    H = 'harness/C20/mat.c'
+    T = 'int64_t'
+    d = TDEF[T]
+    rp = lambda m: Replay(driver='C20/vec.cc', mode=m, extra=[T])
+    gs = [
+        Group(name='Vector.Matrix4<%s>.ctor' % T, harness=H, entry='h_Matrix4_ctor', function='Matrix4<%s>::Matrix4()' % T,
+              enforce='Matrix4_ctor', loops=True, defines=d, kind='loop-contract',
+              clause_note='contracts/C20_mat.h: m[x][y] == (x == y) at the ghost element', replay=rp('Matrix4_ctor')),
+        Group(name='Vector.Matrix4<%s>.transposition' % T, harness=H, entry='h_Matrix4_transposition',
+              function='Matrix4<%s>::transposition' % T, enforce='Matrix4_transposition', replace=['Matrix4_ctor'], loops=True,
+              defines=d, kind='loop-contract', clause_note='contracts/C20_mat.h: r.m[y][x] == m[x][y] at the ghost element',
+              replay=rp('Matrix4_transposition')),
+        Group(name='Vector.Matrix4<%s>.transpose' % T, harness=H, entry='h_Matrix4_transpose',
+              function='Matrix4<%s>::transpose' % T, enforce='Matrix4_transpose', replace=['Matrix4_transposition'],
+              defines=d, kind='loop-free', replay=rp('Matrix4_transpose')),
+        Group(name='Vector.Matrix4<%s>.transposition-twice' % T, harness=H, entry='l_transpose_twice',
+              function='Matrix4<%s>::transposition' % T, replace=['Matrix4_transposition'], defines=d, kind='lemma',
+              replay=rp('Matrix4_transposition_twice')),
+        Group(name='Vector.Matrix4<%s>.transpose-twice' % T, harness=H, entry='l_transpose_inplace_twice',
+              function='Matrix4<%s>::transpose' % T, replace=['Matrix4_transpose'], defines=d, kind='lemma',
+              replay=rp('Matrix4_transpose_twice')),
+        Group(name='Vector.Matrix4<%s>.mulv' % T, harness=H, entry='h_Matrix4_mulv', function='Matrix4<%s>::operator*(Vector4)' % T,
+              enforce='Matrix4_mulv', defines=d, kind='loop-free', first='cvc5', stage1=30,
+              clause_note='contracts/C20_mat.h: (Mv).row_i == sum_j m[j][i]*v_j for entries |e| <= 2^30', replay=rp('Matrix4_mulv')),
+        Group(name='Vector.Matrix4<int32_t>.mulm', harness=H, entry='h_Matrix4_mulm', function='Matrix4<int32_t>::operator*(Matrix4)',
+              enforce='Matrix4_mulm', replace=['Matrix4_ctor'], loops=True, defines=TDEF['int32_t'], kind='loop-contract', timeout=300,
+              clause_note='contracts/C20_mat.h: (AB).m[x][y] == sum_z A.m[z][y]*B.m[x][z] at the ghost element, entries |e| <= 2^24',
+              replay=rp('Matrix4_mulm')),
+    ]
     return gs
 
 def plan(ctx):
@@ -292,6 +331,7 @@ def plan(ctx):
     ut, uv, table = vec_units(ctx, src)
     ctx.functions_under_contract += uv.functions
     groups += vec_groups(ctx, table)
+    groups += mat_groups(ctx)
     return groups
 
 
